@@ -21,7 +21,10 @@ TUniform == Is("AdiUniform") /\ Chk("C14.ScalarEqualsUniformArray", l,
 TLinear == Is("AdiLinear") /\ Chk("C14.Linear", l,
                 \A i \in DOMAIN E.ez : Abs(E.ez[i] - (E.a * E.ex[i] + E.b * E.ey[i])) <= Abs(E.a) + Abs(E.b) + 2)
 TStatus == Is("AdiStatus") /\ Chk("C14.IndependentOfNodeStatus", l, \A i \in DOMAIN E.same : E.same[i] = 1)
-ANext == (TReset \/ TAdi \/ TUniform \/ TLinear \/ TStatus) /\ l' = l + 1
+\* a call with an elevation array of another shape: outside the domain, whatever it does is a stuttering
+\* step of the specification - but the eroder must serve the following valid calls as if nothing had happened
+TBad == Is("AdiBad")
+ANext == (TReset \/ TAdi \/ TBad \/ TUniform \/ TLinear \/ TStatus) /\ l' = l + 1
 ASpec == l = 1 /\ [][ANext]_l
 AAccepted == IF TLCGet("stats").diameter - 1 = Len(Log) THEN TRUE
              ELSE PrintT(<<"REJECTED at line", TLCGet("stats").diameter, "of", Len(Log)>>) /\ FALSE
